@@ -39,3 +39,29 @@ func VerifFrontEnd(text string) (lexErrs, parseErrs, listenerErrs []string, name
 	}
 	return le.GrammarErrors, pe.GrammarErrors, listenerErrs, names, saliences
 }
+
+// VerifTokens runs the lexer alone over a text and reports, for every token of the default channel
+// in order, its symbolic name (the quoted literal for the grammar's implicit tokens) and its text,
+// together with the lexer's error list.  Verification hook: compiled only with -tags verif.
+func VerifTokens(text string) (kinds, texts, lexErrs []string) {
+	lexer := parser.NewgengineLexer(antlr.NewInputStream(text))
+	le := iparser.NewGengineErrorListener()
+	lexer.RemoveErrorListeners()
+	lexer.AddErrorListener(le)
+	for {
+		t := lexer.NextToken()
+		if t == nil || t.GetTokenType() == antlr.TokenEOF {
+			break
+		}
+		name := ""
+		if tt := t.GetTokenType(); tt >= 0 && tt < len(lexer.SymbolicNames) {
+			name = lexer.SymbolicNames[tt]
+		}
+		if name == "" {
+			name = "'" + t.GetText() + "'"
+		}
+		kinds = append(kinds, name)
+		texts = append(texts, t.GetText())
+	}
+	return kinds, texts, le.GrammarErrors
+}
